@@ -32,6 +32,7 @@ def setup_path():
         raise RuntimeError(f'ampycloud imported from {ampycloud.__file__}, expected {REPO_SRC}')
     import logging
     logging.getLogger('ampycloud').setLevel(logging.CRITICAL)
+    logging.getLogger('matplotlib').setLevel(logging.ERROR)
     import warnings
     warnings.simplefilter('ignore')
 
